@@ -9,6 +9,8 @@ pub fn worker_main(args: &[String]) -> i32 {
         "c02" => workers::worker_entry(args, crate::props::c02::worker),
         "c05-abs" => workers::worker_entry(args, crate::props::c05::worker_abs),
         "c05-spell" => workers::worker_entry(args, crate::props::c05::worker_spell),
+        "c06" => workers::worker_entry(args, crate::props::c06::worker),
+        "c09" => workers::worker_entry(args, crate::props::c09::worker),
         "c07" => workers::worker_entry(args, crate::props::c07::worker),
         "c08_stdfs" => workers::worker_entry(args, crate::props::c08::worker_stdfs),
         "c10" => workers::worker_entry(args, crate::props::c10::worker),
